@@ -1,5 +1,6 @@
 import Heathcliff.Proofs.GenRns8
 import Heathcliff.Proofs.GenRns11
+import Heathcliff.Proofs.GenRns14
 import Heathcliff.Proofs.C01EW
 
 /-!
@@ -111,6 +112,51 @@ theorem grw_sk_exact : GenR.fastbconv_sk (flatP nv_p4) (flatP #[#[9, 9, 9, 9], #
   have hval : (GenR.fastbconv_sk (flatP nv_p4) (flatP #[#[9, 9, 9, 9], #[9, 9, 9, 9]]) nv_tool.baseQ.size nv_tool.baseB.size nv_tool.n nv_tool.mSk
       nv_tool.invProdBModMsk nv_tool.baseQ.base.toList nv_tool.prodBModQ.toList (gr_convF nv_tool.bToQ) (gr_convF nv_tool.bToMsk)).toOption
       = some [96, 96, 0, 96, 112, 112, 0, 112] := by decide +kernel
+  rw [hok] at hval
+  simpa [Except.toOption] using hval
+
+/-! ### `fastbconv_m_tilde` on the canonical polynomial `nv_c0` (CRT values 10960, 1363, 2134, 7122) -/
+
+def grw_bMt : RNSBase := (RNSBase.new [nv_tool.mTilde]).toOption.getD default
+theorem grw_bMt_new : RNSBase.new [nv_tool.mTilde] = .ok grw_bMt := nv_ok_of_isOk default (by decide +kernel)
+theorem grw_mt_mk : Modulus.mk? (2^32) = .ok nv_tool.mTilde := nv_ok_of_toOption (by decide +kernel)
+theorem grw_baseBsk_new : RNSBase.new [nv_a2, nv_a3, nv_a0] = .ok nv_tool.baseBsk := nv_ok_of_toOption (by decide +kernel)
+theorem grw_qToBsk_new : BaseConverter.new nv_tool.baseQ nv_tool.baseBsk = .ok nv_tool.qToBsk := nv_ok_of_toOption (by decide +kernel)
+theorem grw_qToMt_new : BaseConverter.new nv_tool.baseQ grw_bMt = .ok nv_tool.qToMt := nv_ok_of_toOption (by decide +kernel)
+theorem grw_baseBsk_wf : nv_tool.baseBsk.WF :=
+  (RNSBase.new_wf (by
+    intro m hm; simp only [List.mem_cons, List.not_mem_nil, or_false] at hm
+    rcases hm with rfl | rfl | rfl
+    · exact (Modulus.mk?_wf nv_aux_mk.2.2.1 (by decide)).1
+    · exact (Modulus.mk?_wf nv_aux_mk.2.2.2 (by decide)).1
+    · exact (Modulus.mk?_wf nv_aux_mk.1 (by decide)).1) (by decide) grw_baseBsk_new).1
+theorem grw_bMt_wf : grw_bMt.WF :=
+  (RNSBase.new_wf (by
+    intro m hm; simp only [List.mem_cons, List.not_mem_nil, or_false] at hm
+    rw [hm]; exact (Modulus.mk?_wf grw_mt_mk (by decide)).1) (by decide) grw_bMt_new).1
+
+/-- `gr_fastbconv_m_tilde_crt` applies to `nv_c0` and a DIRTY destination; the generated function returns the flat form of `nv_p1` (NonVac.lean) -/
+theorem grw_mt_crt : GenR.fastbconv_m_tilde (flatP nv_c0) (flatP #[#[9, 9, 9, 9], #[9, 9, 9, 9], #[9, 9, 9, 9], #[9, 9, 9, 9]]) nv_tool.baseQ.size
+      nv_tool.baseBsk.size nv_tool.n nv_tool.mTilde nv_tool.baseQ.base.toList (gr_convF nv_tool.qToBsk) (gr_convF nv_tool.qToMt) = .ok (flatP nv_p1) := by
+  have hq : nv_tool.baseQ = nv_base := nv_tool_shape.2.1
+  obtain ⟨out, hok, -⟩ := gr_fastbconv_m_tilde_crt nv_tool nv_c0 #[#[9, 9, 9, 9], #[9, 9, 9, 9], #[9, 9, 9, 9], #[9, 9, 9, 9]]
+    (fun j => [10960, 1363, 2134, 7122].getD j 0) (bMt := grw_bMt) (by rw [hq]; exact nv_base_wf) grw_baseBsk_wf grw_bMt_wf (by decide +kernel)
+    (by decide +kernel) grw_qToBsk_new grw_qToMt_new (by decide +kernel)
+    (by have h : ∀ i, i < nv_tool.baseQ.size → (nv_c0.getD i #[]).size = nv_tool.n := by decide +kernel
+        exact h)
+    (by decide +kernel)
+    (by have h : ∀ i, i < nv_tool.baseBsk.size + 1 →
+          ((#[#[9, 9, 9, 9], #[9, 9, 9, 9], #[9, 9, 9, 9], #[9, 9, 9, 9]] : RnsPoly).getD i #[]).size = nv_tool.n := by decide +kernel
+        exact h)
+    (by decide +kernel) (by decide +kernel) (by decide +kernel)
+    (by have h : ∀ j, j < nv_tool.n → [10960, 1363, 2134, 7122].getD j 0 < nv_tool.baseQ.prod ∧ ∀ i, i < nv_tool.baseQ.size →
+          (nv_c0.getD i #[]).getD j 0 < 2^64 ∧
+          [10960, 1363, 2134, 7122].getD j 0 % (nv_tool.baseQ.q i).value = (nv_c0.getD i #[]).getD j 0 % (nv_tool.baseQ.q i).value := by decide +kernel
+        exact h)
+  rw [hok]
+  have hval : (GenR.fastbconv_m_tilde (flatP nv_c0) (flatP #[#[9, 9, 9, 9], #[9, 9, 9, 9], #[9, 9, 9, 9], #[9, 9, 9, 9]]) nv_tool.baseQ.size
+      nv_tool.baseBsk.size nv_tool.n nv_tool.mTilde nv_tool.baseQ.base.toList (gr_convF nv_tool.qToBsk) (gr_convF nv_tool.qToMt)).toOption
+      = some (flatP nv_p1) := by decide +kernel
   rw [hok] at hval
   simpa [Except.toOption] using hval
 
